@@ -10,6 +10,14 @@ func c19pool() [3]Element {
 	var pool [3]Element
 	for k := 0; k < 3; k++ {
 		pool[k] = c07base(k)
+		if !vSymbolic() {
+			// the representation is (x*lam, y*lam, lam): normalise, then scale by the lam of the replay file
+			if err := pool[k].Normalize(); err != nil {
+				panic(err)
+			}
+			lam := ptfp("lam" + string(rune('0'+k)))
+			pool[k] = c07scaled(pool[k], lam)
+		}
 		if !vSymbolic() && vParamInt("zeroz") == k+1 {
 			pool[k].inner.Z = fp.Zero()
 		}
